@@ -1,4 +1,5 @@
 import Crusta.Model.Readers
+import Crusta.Proofs.RoundTrip
 
 /-!
 # C13 — instance readers are total and faithful (property theorems)
@@ -148,5 +149,36 @@ theorem apx_syntax_error (st : ApxSt) (l : Str) (hb : l.all isWs = false)
 its content -/
 example : (match readIccma [112, 32, 97, 102, 32, 50, 10, 49, 32, 50, 10] with
     | .ok fw => fw == ⟨2, [(0, 1)]⟩ | .error _ => false) = true := by decide
+
+/-- **acceptance and faithfulness, ICCMA'23**: the canonical rendering of any framework (declared
+size up to `isize::MAX`, attacks between declared arguments, duplicates kept) is accepted and read
+back as exactly that framework: the declared number of arguments, the declared attacks in
+declaration order -/
+theorem iccma_wellformed_accepted (n : Nat) (atts : List (Nat × Nat)) (h : ∀ p ∈ atts, p.1 < n ∧ p.2 < n)
+    (hn : n ≤ 9223372036854775807) :
+    readIccma (encodeUtf8 (renderIccma n atts)) = .ok ⟨n, atts⟩ := read_render_iccma n atts h hn
+
+/-- the same with comment lines before the header and between attack lines, trailing blank or
+comment lines, and with or without a final newline -/
+theorem iccma_wellformed_accepted_general (n : Nat) (pre : List Str) (items : List IccmaItem) (post : List Str)
+    (finalNl : Bool) (hn : n ≤ 9223372036854775807)
+    (hpre : ∀ t ∈ pre, LineOk (35 :: t)) (hit : ∀ it ∈ items, it.Ok n)
+    (hpost : ∀ t ∈ post, TrailOk t) (hlast : finalNl = false → post.getLast? ≠ some []) :
+    readIccma (encodeUtf8 (joinLines
+        (pre.map (fun t => 35 :: t) ++ (iccmaHeader n :: (items.map IccmaItem.line ++ post))) finalNl)) =
+      .ok ⟨n, itemAtts items⟩ := read_render_iccma' n pre items post finalNl hn hpre hit hpost hlast
+
+/-- a declared size above `isize::MAX` is rejected, not read as something else -/
+theorem iccma_oversized_rejected (n : Nat) (atts : List (Nat × Nat)) (hn : n > 9223372036854775807) :
+    ∃ e, readIccma (encodeUtf8 (renderIccma n atts)) = .error e := read_render_iccma_big n atts hn
+
+/-- **acceptance and faithfulness, Aspartix**: a file of `arg(l).` lines (valid identifiers, incl.
+Unicode digits; distinct) followed by `att(a,b).` lines between declared arguments is accepted and
+yields exactly the declared labels in declaration order and exactly the declared attacks -/
+theorem apx_wellformed_accepted (labels : List Str) (atts : List (Nat × Nat))
+    (hv : ∀ l ∈ labels, ValidId l) (hnd : labels.Nodup)
+    (ha : ∀ p ∈ atts, p.1 < labels.length ∧ p.2 < labels.length) (hand : atts.Nodup) :
+    readApx (encodeUtf8 (writeApx labels (atts.map (fun p => (labels.getD p.1 [], labels.getD p.2 [])))))
+      = .ok ⟨labels, atts⟩ := apx_write_read labels atts hv hnd ha hand
 
 end Crusta.C13
